@@ -48,6 +48,23 @@ theorem encWorld_no_panic_partial (p : Params) (hp : p.Valid) (pol : Policy) (tu
   obtain ⟨w', v', dr, _, k1, k2, k3, _⟩ := encRun_sim p hp pol tun calls
   exact ⟨⟨r, v, h1, hv, hsim.inv⟩, ⟨w', dr, v', k1, k2, k3⟩⟩
 
+/-- Target 1, the run as operations of the C03/C04 vocabulary: the composed run IS the run
+(`xrun`, built on `Woodpile.Iovec.step`) of an explicit operation list on iovec 0 of the fresh world
+`State.init pol tun`, ending in the same world with the same drained bytes (the ghost log of
+`step`).  The list (`encRunOps`) is the image of the emits, in order, under `emitOp`:
+`append bs` by copy ↦ `Op.pushCopy bs`; by borrow ↦ `pushAt` of the sub-slice of the caller's buffer
+(the second half of `Op.push`, see `push_is_lend_pushAt`; the buffer is lent once per `encode` call
+by `XOp.lend`); `register n` ↦ `Op.registerPatch` of `n` zero bytes; `fill id bs` ↦ `Op.backfill`
+with the token the `id`-th registration returned; consumer calls ↦ `Op.consume` / `Op.advance`.
+None of them panics (`xrun` returns `some`), so `Props/C03.op_refines`, `no_panic_valid`, … apply
+to every step. -/
+theorem encWorld_is_ops_partial (p : Params) (hp : p.Valid) (pol : Policy) (tun : Tuning) (calls : List Call) :
+    ∃ w' dr n rs, encRun p pol tun calls = some (w', dr) ∧
+      xrun 0 (State.init pol tun) (encRunOps p pol tun calls) = some (⟨w', dr, n⟩, rs) := by
+  obtain ⟨w', v', dr, _, k1, _⟩ := encRun_sim p hp pol tun calls
+  obtain ⟨n, rs, h⟩ := encRun_xrun p pol tun calls w' dr k1
+  exact ⟨w', dr, n, rs, k1, h⟩
+
 /-- Target 2 between calls: the iovec's abstraction (`absCells`: unconsumed bytes read through the
 heap and the caller buffers, pending backref ranges as holes whose id is the backref KEY) is the
 abstract pipe reached by running the encoder's emits so far with some drain schedule interleaved
@@ -128,6 +145,15 @@ example : obs noCopy [.feed .borrow [0x31, 0x32, 0x33, 0x34, 0xFE], .advance 2, 
 -- the same bytes in one copied piece, no drain
 example : obs exPol [.feed .copy [0x31, 0x32, 0x33, 0x34, 0xFE, 0xFE, 0xFD]]
     = some ([], [3, 0x31, 0x32, 0x33, 2, 0, 0x34, 0xFE, 0, 0], false, 1) := by decide +kernel
+-- the operation list of a small run (policy ⟨0,0⟩: "123" stays borrowed): register the 1-byte header,
+-- push the borrowed "123" (buffer 0, offset 0), backfill the header with its token (key 1), register the
+-- 2-byte header (key 6), push "4" (offset 3; the FE is held back), then a drain, then `finish`: flush
+-- the FE by copy, backfill the second header
+example : encRunOps tp noCopy exTun [.feed .borrow [0x31, 0x32, 0x33, 0x34, 0xFE], .consume 2]
+    = [.op (.registerPatch [0]), .lend [0x31, 0x32, 0x33, 0x34, 0xFE], .pushAt ⟨.ext 0, 0, 3⟩,
+       .op (.backfill (some (1, ⟨0, 0, 1⟩)) [3]), .op (.registerPatch [0, 0]), .pushAt ⟨.ext 0, 3, 1⟩,
+       .op (.consume 2), .op (.pushCopy [0xFE]), .op (.backfill (some (6, ⟨2, 0, 2⟩)) [2, 0])] := by
+  decide +kernel
 -- between calls a placeholder IS pending and the renaming is not the identity: pipe id 1 ↦ key 6
 example : (encPrefix tp noCopy exTun [.feed .borrow [0x31, 0x32, 0x33, 0x34, 0xFE]]).bind (fun r =>
       (r.w.iov 0).map fun v => (absCells r.w v, r.e.toks.map bkey, v.hasPending))
